@@ -445,8 +445,12 @@ class ExecutionState:
                 ):
                     self._mark_orphans(operation_update.operation_id)
 
-                # Check if this operation's parent is done
-                if operation_update.operation_id in self._parent_done:
+                # Check if this operation's parent is done. An operation that is first started after the
+                # parent completed is not in _parent_done itself, but its enclosing (orphaned) context is.
+                if (
+                    operation_update.operation_id in self._parent_done
+                    or operation_update.parent_id in self._parent_done
+                ):
                     logger.debug(
                         "Rejecting checkpoint for operation %s - parent is done",
                         operation_update.operation_id,
